@@ -47,6 +47,7 @@ type Op struct {
 	Size    *int  `json:"size,omitempty"`    // payload bytes
 	Last    *bool `json:"last,omitempty"`    // MF clear
 	Corrupt bool  `json:"corrupt,omitempty"` // content differs from the original at these offsets
+	Evil    bool  `json:"evil,omitempty"`    // the reserved flag bit is set (it means nothing for fragmentation)
 }
 
 type Case struct {
@@ -97,7 +98,7 @@ func ipOptions(n int) []layers.IPv4Option {
 var serOpts = gopacket.SerializeOptions{FixLengths: true, ComputeChecksums: true}
 
 // mkV4 serialises and re-decodes a real IPv4 packet so Length/IHL/Payload are what users pass.
-func mkV4(d *Datagram, off, size int, more, df bool, optLen int, corrupt bool) (*layers.IPv4, error) {
+func mkV4(d *Datagram, off, size int, more, df, evil bool, optLen int, corrupt bool) (*layers.IPv4, error) {
 	ip := &layers.IPv4{Version: 4, TTL: 64, Protocol: layers.IPProtocolUDP, Id: uint16(d.ID),
 		SrcIP: d.srcV4(), DstIP: d.dstV4(),
 		FragOffset: uint16(off / 8), Options: ipOptions(optLen)}
@@ -106,6 +107,9 @@ func mkV4(d *Datagram, off, size int, more, df bool, optLen int, corrupt bool) (
 	}
 	if df {
 		ip.Flags |= layers.IPv4DontFragment
+	}
+	if evil {
+		ip.Flags |= layers.IPv4EvilBit
 	}
 	buf := gopacket.NewSerializeBuffer()
 	if err := gopacket.SerializeLayers(buf, serOpts, ip, gopacket.Payload(content(d, off, size, corrupt))); err != nil {
@@ -223,7 +227,7 @@ func runV4(c *Case) *vh.Failure {
 			}
 		case "whole", "df":
 			d := &c.Datagrams[op.D]
-			in, err := mkV4(d, 0, d.Len, false, op.K == "df", op.OptLen, false)
+			in, err := mkV4(d, 0, d.Len, false, op.K == "df", op.Evil, op.OptLen, false)
 			if err != nil {
 				return vh.Failf("harness", "%v", err)
 			}
@@ -255,7 +259,7 @@ func runV4(c *Case) *vh.Failure {
 			if off+size+20+op.OptLen > 65535 && !c.Hostile {
 				return vh.Failf("harness", "benign fragment too large")
 			}
-			in, err := mkV4(d, off, size, !last, false, op.OptLen, op.Corrupt)
+			in, err := mkV4(d, off, size, !last, false, op.Evil, op.OptLen, op.Corrupt)
 			if err != nil {
 				if c.Hostile {
 					continue // cannot even be serialised (e.g. length > 65535): not an input
@@ -594,9 +598,9 @@ func genCase(t *rapid.T) *Case {
 			case 0:
 				c.Ops = append(c.Ops, Op{K: "discard", Ts: ts - int64(rapid.IntRange(-1, 6).Draw(t, "cutoff"))})
 			case 1:
-				c.Ops = append(c.Ops, Op{K: "whole", D: qi, Ts: ts, OptLen: c.Datagrams[qi].OptLen})
+				c.Ops = append(c.Ops, Op{K: "whole", D: qi, Ts: ts, OptLen: c.Datagrams[qi].OptLen, Evil: rapid.IntRange(0, 2).Draw(t, "evilwhole") == 0})
 			case 2:
-				c.Ops = append(c.Ops, Op{K: "df", D: qi, Ts: ts})
+				c.Ops = append(c.Ops, Op{K: "df", D: qi, Ts: ts, Evil: rapid.IntRange(0, 2).Draw(t, "evildf") == 0})
 			}
 		}
 	}
